@@ -237,6 +237,7 @@ struct ForeachCtx {
     std::vector<uint32_t> deleted;
     size_t calls = 0;
     bool stopped = false, errored = false;
+    bool may_stop = false; // DELETE without CONTINUE: the header describes both "continues iteration" and "if not set, iteration stops"
     bool nt_run4 = false, nt_wrap = false;
     std::set<std::string> tags;
 };
@@ -292,7 +293,7 @@ static int foreach_cb(void *vctx, struct aws_hash_element *e) {
     case F_CONT: return AWS_COMMON_HASH_TABLE_ITER_CONTINUE;
     case F_DEL: return AWS_COMMON_HASH_TABLE_ITER_CONTINUE | AWS_COMMON_HASH_TABLE_ITER_DELETE;
     case F_STOP: f.stopped = true; return 0;
-    case F_DEL_STOP: f.stopped = true; return AWS_COMMON_HASH_TABLE_ITER_DELETE;
+    case F_DEL_STOP: f.may_stop = true; return AWS_COMMON_HASH_TABLE_ITER_DELETE; // must delete; whether the walk goes on is left open
     case F_ERR: f.errored = true; return AWS_COMMON_HASH_TABLE_ITER_ERROR;
     default:
         f.errored = true; // "No action will be taken for the current value"
@@ -727,7 +728,7 @@ static void run(const Case &c, Ctx &ctx) {
                 ctx.tag("foreach_error");
             } else {
                 PBT_CHECK(rc == AWS_OP_SUCCESS, "foreach returned an error without the callback asking for it");
-                if (!f.stopped) {
+                if (!f.stopped && !f.may_stop) {
                     if (f.visited.size() != f.start.size()) {
                         std::string missing;
                         for (auto &kv : f.start)
